@@ -594,27 +594,6 @@ def _diff(a, b):
     return a[1] - b[1]
 
 
-def transformer_object(tr, zones_map, rules_map, **over):
-    """a Transformer built by interpreting its own __init__ on the given maps (parameters are matched by name)"""
-    from .aeval import AEval, AObj
-    f = tr.fn('Transformer.__init__')
-    vals = dict(zones_map=zones_map, rules_map=rules_map, links_map={}, scope='extended', start_year=2000, until_year=2050,
-                until_at_granularity=60, offset_granularity=60, strict=True)
-    vals.update(over)
-    args = []
-    for p in f.params[1:]:
-        if p not in vals:
-            raise AnalysisError('%s: Transformer.__init__ has a parameter %s the abstraction does not know' % (f.loc, p))
-        args.append(vals[p])
-    me = AObj({}, oid='self', cls='Transformer')
-    AEval(module=tr).call_function('Transformer.__init__', args, recv=me)
-    return me
-
-
-QUIET = {k: (lambda ev, recv, args: None) for k in ('_add_reason', 'logging.info', 'logging.error', 'logging.warning', 'info', 'error',
-                                                     '_print_removed_map', '_merge_reasons')}
-
-
 def marking_rules(R, tr, thorough=False):
     """R9 by interpretation (E-SEQ): _mark_rules_used_by_zones followed by _remove_rules_unused is evaluated on small zones
     (one to three eras, with and without a policy) and policies of one or two rules whose FROM/TO years sit on and around
